@@ -23,7 +23,7 @@ func init() {
 		Rule: "seeded Failover/FailoverOf cases: 2..6 workers x 1..3 Gets over 1..3 keys (incl. xxhash64-colliding keys), entry state {absent,fresh,stale,too-stale}, config product {SyncUpdate,SyncRead,FailHard,MaxStaleness 0/1h,FailedUpdateTTL default/-1/1h}, " +
 			"builder outcome scripts, backend fault injection, caller misbehaviour after return; 7/8 run under the steered executor (one task at a time, seeded random/PCT/run-to-block choice at every call-out), 1/8 free-running with real parallelism and seeded delays; " +
 			"online monitor of builder [entry,exit] intervals per key; distinct_nontrivial = distinct (config, schedule signature) of runs in which >=2 Gets for a key were in flight while a builder for it was active",
-		Required:    []string{"runs.steered", "runs.free", "runs.contended", "builds", "bg.builds", "api.Failover", "api.FailoverOf"},
+		Required:    []string{"runs.steered", "runs.free", "runs.contended", "family.observe_mutability", "builds", "bg.builds", "api.Failover", "api.FailoverOf"},
 		Assumptions: []string{"builder intervals are delimited by harness code (entry/exit events under one mutex)", "steered executor relies on runtime.Stack status strings; malfunction yields 'inconclusive', never a verdict"},
 		Timeout:     func(string) time.Duration { return 45 * time.Minute },
 	})
@@ -47,7 +47,7 @@ func init() {
 		Rule: "same seeded cases with caller misbehaviour after return (cancel ctx, overwrite key buffer with another live key / noise), builder failures and backend write rejections; liveness restated as logical deadlock freedom under the steered executor " +
 			"(no task runnable, no builder active, a Get blocked in the library) and bounded progress in free mode; at quiescence no key lock remains (hook + black-box follow-up Gets that must rebuild), every build result was written under the key it was requested for; " +
 			"distinct_nontrivial = distinct (config, schedule signature) of runs with a background build or a waiter",
-		Required:    []string{"runs.steered", "runs.free", "followups", "mass.runs", "mass.followups", "bg.builds", "misbehaviour.mutate", "misbehaviour.cancel", "api.Failover", "api.FailoverOf"},
+		Required:    []string{"runs.steered", "runs.free", "followups", "mass.runs", "mass.runs_over_10000_keys", "mass.followups", "rearm.cases", "rearm.rejected_gets", "bg.builds", "misbehaviour.mutate", "misbehaviour.cancel", "api.Failover", "api.FailoverOf"},
 		Assumptions: []string{"'Get always completes' is checked as logical deadlock freedom on the explored schedules (finite runs cannot decide unbounded liveness)"},
 		Timeout:     func(string) time.Duration { return 45 * time.Minute },
 	})
@@ -90,6 +90,13 @@ func runFoGeneric(b *Batch, prop string) {
 			}
 			b.R.Count("family.buffer_reuse", 1)
 		}
+		if prop == "C01" && i%4 == 1 {
+			// ObserveMutability adds work (and call-outs) between the backend write of a build and the release of its key
+			c.Cfg.Observe = true
+			c.Cfg.SliceVals = c.Cfg.API == "Failover" && rng.Intn(2) == 0
+			c.CfgS = c.Cfg.String()
+			b.R.Count("family.observe_mutability", 1)
+		}
 		if prop == "C01" && i%10 == 3 {
 			c.NilValues = true // builders that legitimately return a nil / zero value (values are not judged by C01)
 			b.R.Count("family.nil_values", 1)
@@ -129,7 +136,13 @@ func runFoGeneric(b *Batch, prop string) {
 		}
 		for i := 0; i < nm; i++ {
 			if !b.Skip(n + i) {
-				c04Mass(b, n+i)
+				c04Mass(b, n+i, false)
+			}
+			if i == 0 && b.Index == 0 && !b.Skip(n+16*1000) {
+				c04Mass(b, n+16*1000, true) // the big variant, once per run
+			}
+			if !b.Skip(n + 1000 + i) {
+				c04RearmWindow(b, n+1000+i)
 			}
 		}
 	}
@@ -138,10 +151,14 @@ func runFoGeneric(b *Batch, prop string) {
 // c04Mass: mass expiration. Hundreds of distinct stale keys of one Failover are requested at once, so that hundreds of
 // background builds are in flight at the same moment (builders parked at a gate). After the gate opens and everything has
 // finished, no key lock may remain and every key must be buildable again.
-func c04Mass(b *Batch, idx int) {
+func c04Mass(b *Batch, idx int, huge bool) {
 	rng := rand.New(rand.NewSource(b.CaseSeed(idx)))
 	p := foPairings[rng.Intn(3)]
 	n := 280 + rng.Intn(320)
+	if huge {
+		n = 10200 + rng.Intn(6000)
+		b.R.Count("mass.runs_over_10000_keys", 1)
+	}
 	keys := make([][]byte, n)
 	for i := range keys {
 		keys[i] = []byte(fmt.Sprintf("mass-%d", i))
